@@ -23,10 +23,10 @@ EXPLANATION = (
     "failure and kick failure is a decision vector; on each path the recorded hook sequence must equal the documented one exactly "
     "(order, multiplicity, conditions, message chaining)."
 )
-ASSUMPTIONS = ["hooks do not raise", "inline executor", "concurrent messages are checked per message in C02/C07 harnesses; here one message per run"]
+ASSUMPTIONS = ["hooks do not raise", "inheritance: one level (middleware 1 derives from middleware 0, parent registered first)", "inline executor", "concurrent messages are checked per message in C02/C07 harnesses; here one message per run"]
 TRUSTED = ["CPython asyncio (real, virtual clock)", "vt.sym explorer", "recording middlewares"]
 BOUNDS = {"middlewares": "0..2 quick (3 kinds per hook), 3 thorough (2 kinds per hook)", "messages": 1}
-REQUIRED_COVERS = ["outcome_cancelled", "outcome_raise_base", "outcome_timeout", "late_middleware", "via_listen", "future_hook", "exec", "send", "kick_failed", "async_hook", "sync_hook", "no_hook", "replace", "post_save_skipped", "on_error_ran"]
+REQUIRED_COVERS = ["inherited_hooks", "outcome_cancelled", "outcome_raise_base", "outcome_timeout", "late_middleware", "via_listen", "future_hook", "exec", "send", "kick_failed", "async_hook", "sync_hook", "no_hook", "replace", "post_save_skipped", "on_error_ran"]
 
 EXEC_HOOKS = ("pre_execute", "on_error", "post_execute", "post_save")
 SEND_HOOKS = ("pre_send", "post_send")
@@ -60,6 +60,12 @@ def cases(tier: str, hname: str = "harness") -> List[Any]:
     for outcome in ("return", "raise_exc"):
         out.append({"side": "exec", "n": 2, "outcome0": outcome, "backend_fail0": False, "kinds": "f"})
     out.append({"side": "send", "n": 2, "kick_fail": False, "kinds": "f"})
+    # hooks inherited through an intermediate base class: middleware 1's class derives from middleware 0's class, both are
+    # registered (parent first); the child keeps every hook of the parent and adds / redefines its own
+    for v0 in itertools.product(range(3), repeat=4):
+        out.append({"side": "exec", "n": 2, "outcome0": "raise_exc", "backend_fail0": False, "v0": list(v0), "kinds": 3, "inherit": True})
+    for kf in (False, True):
+        out.append({"side": "send", "n": 2, "kick_fail": kf, "kinds": 3, "inherit": True})
     return out
 
 
@@ -72,6 +78,16 @@ def _vectors(c: sym.Ctx, case: Dict[str, Any], hooks: Any) -> List[Dict[str, str
     return mws
 
 
+def _effective(case: Dict[str, Any], own: List[Dict[str, str]]) -> List[Dict[str, str]]:
+    """the hooks each registered middleware really has: its own plus, with case['inherit'], those of its parent class"""
+    if not case.get("inherit"):
+        return own
+    eff: List[Dict[str, str]] = []
+    for m in own:
+        eff.append({**(eff[-1] if eff else {}), **m})
+    return eff
+
+
 def harness(c: sym.Ctx, case: Dict[str, Any]) -> None:
     if case["side"] == "exec":
         exec_side(c, case)
@@ -81,11 +97,15 @@ def harness(c: sym.Ctx, case: Dict[str, Any]) -> None:
 
 def exec_side(c: sym.Ctx, case: Dict[str, Any]) -> None:
     c.cover("exec")
-    mws = _vectors(c, case, EXEC_HOOKS)
+    own = _vectors(c, case, EXEC_HOOKS)
+    mws = _effective(case, own)
     replace = bool(mws) and c.flag("replace")
+    if case.get("inherit"):
+        c.cover("inherited_hooks")
     spec: Dict[str, Any] = {
         "ack": "when_saved", "async_ack": False, "target": "async", "outcome0": case["outcome0"], "timeout_label0": False,
-        "backend_fail0": case["backend_fail0"], "mws": mws, "replace": replace, "task_gate": False, "backend_gate": False,
+        "backend_fail0": case["backend_fail0"], "mws": own, "inherit": bool(case.get("inherit")), "replace": replace,
+        "task_gate": False, "backend_gate": False,
     }
     if mws and not case["backend_fail0"] and c.flag("middleware_registered_after_a_first_message"):
         c.cover("late_middleware")
@@ -151,8 +171,11 @@ def send_side(c: sym.Ctx, case: Dict[str, Any]) -> None:
     from taskiq.kicker import AsyncKicker
 
     c.cover("send")
-    mws = _vectors(c, case, SEND_HOOKS)
+    own = _vectors(c, case, SEND_HOOKS)
+    mws = _effective(case, own)
     replace = bool(mws) and c.flag("replace")
+    if case.get("inherit"):
+        c.cover("inherited_hooks")
     lab = Lab(c)
     broker = make_broker(lab)
     kick_fail = case["kick_fail"]
@@ -165,8 +188,10 @@ def send_side(c: sym.Ctx, case: Dict[str, Any]) -> None:
             raise boom
 
     broker.kick = kick  # type: ignore[method-assign]
-    for k, hooks in enumerate(mws):
-        broker.add_middlewares(make_middleware(lab, k, hooks, replace_message=replace))
+    made: List[Any] = []
+    for k, hooks in enumerate(own):
+        made.append(make_middleware(lab, k, hooks, replace_message=replace, base=made[-1] if (case.get("inherit") and made) else None))
+        broker.add_middlewares(made[-1])
     out: Dict[str, Any] = {}
 
     async def main() -> None:
